@@ -7,7 +7,7 @@ from common import run_correspondence
 import tnet_gen as G
 
 PROP = "C07"
-LEAN_FILES = ["QibProofs/Properties/C07.lean", "QibProofs/Properties/C07Model.lean"]
+LEAN_FILES = ["QibProofs/Properties/C07.lean", "QibProofs/Properties/C07Model.lean", "QibProofs/Properties/C07Total.lean"]
 GEN = ()
 DRIVER = "drv_tnet"
 LEVEL_TEXT = ("Lean 4 theorems: (abstract) contraction along any binary tree equals the defining sum for all trees and finite index types; "
@@ -16,7 +16,7 @@ LEVEL_TEXT = ("Lean 4 theorems: (abstract) contraction along any binary tree equ
               "contraction never fails and expands to the defining sum `full` (C07_einsum_complete), the tree builder always produces certified "
               "nodes (C07_buildTree_ok), every scaffold over all real tensors that the code accepts expands to the same dense tensor "
               "(C07_tree_total_any, C07_strategy_independent), permute_axes leaves the value unchanged (C07_permute_axes_invariant), the logical "
-              "shape is the reported one (C07_shape). The replica is tied to the code by exact comparison of every index list and every dense "
+              "shape is the reported one (C07_shape); TOTALITY (C07Total.lean): for a consistent network whose open bonds all touch a real tensor and a full scaffold with at least two leaves, build/prep/eval all return (C07_contractTree_complete, C07_contractTree_returns_iff), and the refusals are characterised (untouched open bond -> RuntimeError, bad scaffold entries, single leaf with a repeated bond). The replica is tied to the code by exact comparison of every index list and every dense "
               "integer result on every sample.")
 ASSUMPTIONS = ["np.einsum with explicit index lists is modelled by its defining sum (re-computed exactly by the model on every sample)",
                "networks are built through the public constructors; integer tensor data (exact comparison)",
